@@ -330,3 +330,47 @@ fn c16_offs_add_row_sorted_dense() {
     kani::cover!(a0 < a1 && row == a1, "witness: extending a non-empty range");
     std::mem::forget(s);
 }
+
+/// Offsets::bounds / SubsetRef::size -- the summaries `intersect`, `refine` and the join stages use to reject or size a
+/// subset without reading it: None exactly for an empty subset; otherwise a half-open interval that contains every row
+/// of the subset and is tight at both ends; size() is the number of rows `offsets` visits.
+#[kani::proof]
+#[kani::unwind(8)]
+fn c16_offs_bounds_and_size() {
+    let (a, len) = any_sorted();
+    let slice = unsafe { SortedOffsetSlice::new_unchecked(&a[..len]) };
+    let sp = SubsetRef::Sparse(slice);
+    let mut visited = 0usize;
+    sp.offsets(|_| visited += 1);
+    assert!(sp.size() == len && visited == len);
+    match sp.bounds() {
+        None => assert!(len == 0),
+        Some((lo, hi)) => {
+            assert!(len > 0);
+            assert!(lo == a[0], "lower bound is the first row");
+            assert!(hi.rep() == a[len - 1].rep() + 1, "upper bound is one past the last row");
+            let k: usize = kani::any();
+            kani::assume(k < len);
+            assert!(lo <= a[k] && a[k] < hi, "every row lies inside the bounds");
+        }
+    }
+    // the owned / borrowed forms agree
+    assert!(slice.bounds() == sp.bounds());
+
+    let d0: u32 = kani::any();
+    let d1: u32 = kani::any();
+    kani::assume(d0 <= d1 && d1 < 1000);
+    let dn = SubsetRef::Dense(OffsetRange::new(r(d0), r(d1)));
+    assert!(dn.size() == (d1 - d0) as usize);
+    match dn.bounds() {
+        None => assert!(d0 == d1, "a dense range without bounds is empty"),
+        Some((lo, hi)) => {
+            let x: u32 = kani::any();
+            kani::assume(x < 1000);
+            assert!((lo.rep() <= x && x < hi.rep()) == (d0 <= x && x < d1), "dense bounds are the range itself");
+        }
+    }
+    kani::cover!(len == S && a[0] != a[S - 1], "witness: a full slice with distinct ends");
+    kani::cover!(len == 1, "witness: singleton slice");
+    kani::cover!(d0 < d1, "witness: non-empty dense range");
+}
